@@ -78,7 +78,7 @@ def build_program(prog, rng):
         else:
             obs_data = jinns.data.DataGeneratorObservationsMultiPINNs(
                 bsize, {n: jnp.asarray(rng.uniform(0, 1, (n_obs, D))) for n in names},
-                {n: jnp.asarray(rng.uniform(-1, 1, (n_obs, problem.nets[n].n_out))) for n in names},
+                {n: jnp.asarray(rng.uniform(-1, 1, (n_obs, problem.obs_val[n].shape[1]))) for n in names},
                 key=jax.random.PRNGKey(key + 2))
     return dict(loss=loss, params=params, data=data, param_data=param_data, obs_data=obs_data, problem=problem)
 
